@@ -42,8 +42,8 @@ SQLITE_FUNCS = {"contains", "startswith", "endswith", "length", "indexof", "subs
 def profile(finding_lane=False):
     p = scalar.Profile()
     p.funcs = set(SQLITE_FUNCS)
-    p.columns = dict(scalar.SCHEMA)
-    p.types = {"int", "float", "str", "bool", "datetime"}
+    p.columns = dict(scalar.SCHEMA, m="decimal")
+    p.types = {"int", "float", "str", "bool", "datetime", "decimal"}
     p.bare_bool_literal = True
     p.null_left = True
     # clean lane: no LIKE wildcards in pattern literals, no non-literal patterns (known
